@@ -19,7 +19,8 @@ from . import common, lib_expand as L
 from .common import parallel_map
 
 RULE = ("case = product graph (3-6 names x 1-3 versions, required/optional edges, bare / explicit / expression / "
-        "version+[expression] specs, -j, --external, optional products absent; 'cf' stream conflict-free by construction, "
+        "version+[expression] specs, -j, --external, optional products absent, a share of the dependency tables already in "
+        "expanded form (exact block + inexact branch); 'cf' stream conflict-free by construction, "
         "'arb' stream with arbitrary specs incl. diamond conflicts) + build-time setup of the top product + expansion of its "
         "table (CLI defaults) + 0-4 syntactic/option variants expanded in the same environment + random evolution "
         "(new lower/higher versions, current moved, absent products appearing) + exact re-setup; a case is non-trivial when "
@@ -84,6 +85,47 @@ def classify_exc(ex, deps_exc):
     return "Other:" + type(ex).__name__
 
 
+def cli_eups():
+    """The Eups instance `eups expandtable` works with: EupsCmd.createEups constructs it and selects the VRO at once
+    (with the default VRO that switches the `exact` setup type on, which decides which branch of an already expanded
+    dependency table getDependencies reads)."""
+    E = common.new_eups()
+    E.selectVRO(None, None, None, None)
+    return E
+
+
+def prequery(text, names, pins):
+    """(d) the answers of the environment, asked of a fresh real Eups (in a process of its own, so that the instance the
+    expander is going to use is as fresh as the one of `eups expandtable`)."""
+    import eups
+    from eups.exceptions import ProductNotFound
+    _quiet()
+    E = cli_eups()
+    ans = {"sv": [], "spv": [], "deps": []}
+    for n in candidate_names(text, list(names) + list(pins)):
+        try:
+            v = eups.getSetupVersion(n, eupsenv=E)
+        except ProductNotFound:
+            v = None
+        except Exception as ex:  # noqa
+            return {"skip": "getSetupVersion raised %s" % type(ex).__name__}
+        if v is not None:
+            ans["sv"].append([n, v])
+        try:
+            p = E.findSetupProduct(n)
+        except Exception as ex:  # noqa
+            return {"skip": "findSetupProduct raised %s" % type(ex).__name__}
+        if p is not None:
+            ans["spv"].append([n, p.version])
+        for ver in sorted({x for x in (pins.get(n), v) if x is not None}):
+            try:
+                d = eups.getDependencies(n, ver, E, setup=True, shouldRaise=True)
+                ans["deps"].append([n, ver, [[a, b, bool(c)] for a, b, c, _ in d]])
+            except Exception:  # noqa
+                ans["deps"].append([n, ver, None])
+    return ans
+
+
 def child_expand(env, path, opts, names):
     """Ask the real Eups what the expander is going to ask it, then run the real expander on the file."""
     import eups
@@ -94,48 +136,42 @@ def child_expand(env, path, opts, names):
     with open(path) as f:
         text = f.read()
     pins = dict(opts["pins"])
+    r = common.in_child(prequery, text, names, pins)
+    if r[0] != "ok":
+        return {"child": list(r[:3])}
+    ans = r[1]
+    if "skip" in ans:
+        return ans
     with _quiet(), contextlib.redirect_stdout(io.StringIO()):
-        E = common.new_eups()
-        # (d) the answers of the environment
-        ans = {"sv": [], "spv": [], "deps": []}
+        E = cli_eups()
         unstable = []
-        for n in candidate_names(text, list(names) + list(pins)):
-            try:
-                v = eups.getSetupVersion(n, eupsenv=E)
-            except ProductNotFound:
-                v = None
-            except Exception as ex:  # noqa
-                return {"skip": "getSetupVersion raised %s" % type(ex).__name__}
-            if v is not None:
-                ans["sv"].append([n, v])
-            try:
-                p = E.findSetupProduct(n)
-            except Exception as ex:  # noqa
-                return {"skip": "findSetupProduct raised %s" % type(ex).__name__}
-            if p is not None:
-                ans["spv"].append([n, p.version])
-            for ver in sorted({x for x in (pins.get(n), v) if x is not None}):
-                try:
-                    d = eups.getDependencies(n, ver, E, setup=True, shouldRaise=True)
-                    ans["deps"].append([n, ver, [[a, b, bool(c)] for a, b, c, _ in d]])
-                except Exception:  # noqa
-                    ans["deps"].append([n, ver, None])
         # interposition: record what is actually consulted, to cross-check the answers above
         seen = {"deps_exc": None}
         real_deps, real_sv, real_fsp = eups.getDependencies, eups.getSetupVersion, E.findSetupProduct
         svd, spvd = dict(map(tuple, ans["sv"])), dict(map(tuple, ans["spv"]))
         depd = {(a, b): c for a, b, c in ans["deps"]}
 
+        recorded, state_dep = {}, []
+
         def w_deps(n, v=None, *a, **k):
+            # A listing depends on the state of the Eups instance when dependency tables have `type == exact` blocks
+            # (the first lookup of an instance resolves the VRO and switches exact_version on).  The model's datum for
+            # (n, v) is therefore the answer the expander itself got, provided it asked the registered question
+            # (setup=True, shouldRaise=True); the answer obtained beforehand is used for everything it did not ask.
+            same_q = (k.get("setup") is True and k.get("shouldRaise") is True and len(a) == 1 and (n, v) in depd)
             try:
                 d = real_deps(n, v, *a, **k)
             except Exception as ex:  # noqa
                 seen["deps_exc"] = ex
-                if depd.get((n, v), "missing") is not None:
-                    unstable.append("deps(%s,%s) raised now" % (n, v))
+                if same_q and (n, v) not in recorded:
+                    recorded[(n, v)] = None
+                    if depd[(n, v)] is not None:
+                        state_dep.append("deps(%s,%s) raised in the call" % (n, v))
                 raise
-            if depd.get((n, v), "missing") != [[a_, b_, bool(c_)] for a_, b_, c_, _ in d]:
-                unstable.append("deps(%s,%s) differs" % (n, v))
+            if same_q and (n, v) not in recorded:
+                recorded[(n, v)] = [[a_, b_, bool(c_)] for a_, b_, c_, _ in d]
+                if depd[(n, v)] != recorded[(n, v)]:
+                    state_dep.append("deps(%s,%s) differs" % (n, v))
             return d
 
         def w_sv(n, *a, **k):
@@ -173,7 +209,45 @@ def child_expand(env, path, opts, names):
         finally:
             eups.getDependencies, eups.getSetupVersion = real_deps, real_sv
         res["unstable"] = unstable
+        res["state_dependent"] = state_dep
+        ans["deps"] = [[n, v, recorded.get((n, v), d)] for n, v, d in ans["deps"]]
     return res
+
+
+def cli_args(path, opts):
+    """The `eups expandtable` command line for these options, or None when the CLI cannot express them."""
+    pins = opts["pins"]
+    if not opts.get("recurse", True) or any((not v) or ":" in v or "=" in v or ":" in k or "=" in k for k, v in pins.items()):
+        return None
+    a = ["expandtable", "--nolocks"]
+    if pins:
+        a += ["-p", ":".join("%s=%s" % kv for kv in pins.items())]
+    if opts["force"]:
+        a.append("--force")
+    if not opts["expandVersions"]:
+        a.append("-N")
+    if not opts["addExactBlock"]:
+        a.append("--noExact")
+    top_from_file = os.path.basename(path)[:-len(".table")]
+    if opts["toplevel"] is None:
+        return None                      # the CLI always derives a name from the file
+    if opts["toplevel"] != top_from_file:
+        a += ["-P", opts["toplevel"]]
+    return a + [path]
+
+
+def child_cli(env, args):
+    """`eups expandtable ...` through the command class, standard output captured."""
+    import eups.cmd
+    os.environ.clear()
+    os.environ.update(env)
+    out = io.StringIO()
+    with _quiet(), contextlib.redirect_stdout(out):
+        try:
+            rc = eups.cmd.EupsCmd(args=list(args), toolname="eups").run()
+        except Exception as ex:  # noqa
+            return {"err": type(ex).__name__, "errmsg": str(ex)[:200]}
+    return {"out": out.getvalue(), "rc": rc}
 
 
 def child_actions(env, paths):
@@ -197,6 +271,7 @@ def child_actions(env, paths):
 
 class Worker:
     def __init__(self):
+        common.import_eups()            # (cleans the environment; the children inherit the imported modules)
         self.root = common.scratch("c17")
         stacks, uds = common.mkstacks(self.root)
         self.stack = stacks[0]
@@ -229,6 +304,14 @@ def run_case(w, case):
     env1 = b["env"]
     built = L.records(env1)
     res["built"] = built
+    for n in case.get("tamper") or []:
+        if n in built and built[n]:
+            f = os.path.join(w.stack, "ups_db", n, built[n] + ".version")
+            if os.path.exists(f):
+                os.unlink(f)
+                res["tampered"] = True
+    if res.get("tampered"):
+        L.drop_caches(w.ud)
     names = case["names"] + L.ABSENT
     tpath = L.table_path(w.stack, topn, topv)
     # expansions: the product's own table with the case's options, then the variants
@@ -246,9 +329,12 @@ def run_case(w, case):
         r = call(child_expand, env1, p, o, names)
         r["text"] = text
         r["opts"] = o
+        ca = cli_args(p, o)
+        if ca is not None and case.get("cli_check"):
+            r["cli"] = call(child_cli, env1, ca)
         res["exps"].append(r)
     main = res["exps"][0]
-    if "out" in main:
+    if "out" in main and not res.get("tampered"):
         # the real parser on the original and on the expanded table
         xp = os.path.join(w.vdir, "expanded.table")
         with open(xp, "w") as f:
@@ -289,13 +375,21 @@ def model_request(exp):
             "spv": a["spv"], "sv": a["sv"], "deps": a["deps"]}
 
 
+def canon_lines(ls):
+    """The property-relevant content of a table text: its commands and block lines in order.  Indentation, the padding
+    inside a line, blank lines, comment lines and trailing comments are dropped, so that a change of the expander's
+    cosmetics is not reported as a broken correspondence."""
+    out = []
+    for l in ls:
+        l = " ".join(re.sub(r"\s*#.*$", "", l).split())
+        if l:
+            out.append(l)
+    return out
+
+
 def impl_view(exp):
     if "out" in exp:
-        t = exp["out"]
-        ls = t.split("\n")
-        if ls and ls[-1] == "":
-            ls.pop()
-        return {"out": "ok", "lines": ls}
+        return {"out": "ok", "lines": canon_lines(exp["out"].split("\n"))}
     return {"out": "error", "err": exp.get("err")}
 
 
@@ -303,8 +397,22 @@ def model_view(ans):
     if "bad-op" in ans:
         return {"out": "bad-op", "why": ans["bad-op"]}
     if ans["out"] == "ok":
-        return {"out": "ok", "lines": ans["lines"]}
+        return {"out": "ok", "lines": canon_lines(ans["lines"])}
     return {"out": "error", "err": ans["err"]}
+
+
+def same_text(exp, ans):
+    """byte-for-byte agreement of the two texts (a statistic, not an alarm)"""
+    if "out" not in exp or not isinstance(ans, dict) or ans.get("out") != "ok":
+        return None
+    ls = exp["out"].split("\n")
+    if ls and ls[-1] == "":
+        ls.pop()
+    return ls == ans["lines"]
+
+
+def model_hyps(ans):
+    return ans.get("hyps") if isinstance(ans, dict) else None
 
 
 # ---- oracle (ii) -----------------------------------------------------------------------------------------
@@ -422,7 +530,8 @@ def complete_env(case, built):
     """Premise of the exact-reproduction clause, from the generator's description: the build-time environment holds
     everything the top table asks for -- following every setup line that is not --external and whose product is set
     up, descending into that product's build-version table unless the line carries -j, no required product is missing.
-    (It is false e.g. when `c -j` was set up first and a later plain request for c hit the already-set-up short cut.)"""
+    (It is false e.g. when `c -j` was set up first and a later plain request for c hit the already-set-up short cut, so
+    that c's own dependencies -- required or optional -- were never attempted.)"""
     def ok(n, v, seen):
         lines = build_table(case, n, v)
         if lines is None:
@@ -436,7 +545,10 @@ def complete_env(case, built):
                 continue
             q = l["name"]
             if q not in built:
-                if not l["optional"]:
+                # a missing optional product is fine only if it could not be set up at all; in the conflict-free stream
+                # every declared product can (its required dependencies are declared), so a declared one that is missing
+                # was never attempted: its requester was set up with -j first and short-cut afterwards
+                if not l["optional"] or q in (case.get("build") or {}):
                     return False
                 continue
             if "-j" not in fl and not ok(q, built[q], seen):
@@ -465,6 +577,8 @@ def oracle_case(case, res):
             if built.get(n) != v and pins.get(n) != v:
                 yield ("never_foreign", None, "exact block pins %s %s; build-time record: %r" % (n, v, built.get(n)), i)
     main = res["exps"][0]
+    if res.get("tampered"):
+        return
     cf = case["stream"] == "cf" and complete_env(case, built)
     if "out" not in main:
         if cf and main.get("err") and not main.get("skip"):
@@ -487,6 +601,65 @@ def oracle_case(case, res):
                 cls = None
             yield ("exact_reproduces", cls, "exact re-setup: ok=%r records=%r; build-time records=%r"
                    % (res.get("exact_ok"), res.get("exact_records"), built), 0)
+
+
+# ---- the regular expressions, one by one -------------------------------------------------------------------
+
+RE_TOKENS = ["setupRequired(", "setupRequired(", "setupOptional(", "setupOptional(", ")", ")", "setupRequired", "setup", '"', ")", "(", " ", " ", "\t", "#", "a", "b 1", "eups", "-j",
+             "[", "]", ">=", "==", "=", " = 1", "<", "{", "}", "if", "(type", "exact)", "--external", "x", "1.0", "\r", "\x0b"]
+REX = r'(setupRequired|setupOptional)\("?([^"]*)"?\)'
+
+
+def gen_re_line(rng):
+    n = rng.choice([0, 1, 2, 3, 4, 5, 6, 8, 12])
+    s = "".join(rng.choice(RE_TOKENS) for _ in range(n))
+    if rng.random() < 0.7:
+        s += "\n"
+    return s
+
+
+def python_re(l):
+    """What the patterns of expandTableFile / subSetup / isLegalRelativeVersion say about one line (CPython `re`)."""
+    m = re.search(REX, l)
+    tok = l.split()[0] if l.split() else ""
+    br = []
+    a = tok
+    mat = re.search(r"^\[\s*(.*)\s*\]?$", a)
+    if mat:
+        br.append("[")
+        a = mat.group(1)
+    mat = re.search(r"^(.*)\s*\]$", a)
+    br += [mat.group(1), "]"] if mat else [a]
+    return {"blank": bool(re.search(r"^\s*(#.*)?$", l)), "nocomment": re.sub(r"\s*#.*$", "", l),
+            "rex": {"optional": m.group(1) == "setupOptional", "args": m.group(2), "len": len(m.group(0))} if m else None,
+            "preExact": bool(re.search(r"if\s*\(type\s*==\s*exact\)\s*{", l)), "openBrace": bool(re.search(r"{\s*$", l)),
+            "closeBrace": bool(re.search(r"^\s*}\s*$", l)), "split": l.split(), "strip": l.strip(),
+            "relop": bool(re.search(r"<=?|>=?|==", l)), "badrelop": bool(re.match(r"^\s*=\s+\S+", l)),
+            "first": l.split(" ")[0], "bracket_of_first_token": br, "external": "--external" in l}
+
+
+def evaluate_regexes(ctx, n):
+    """Differential test of the hand-translated patterns against CPython `re` on token-generated lines."""
+    lines = [gen_re_line(ctx.rng) for _ in range(n)]
+    ans = ctx.lean.ask({"m": "c17", "op": "re", "lines": lines})
+    if "bad-op" in ans:
+        raise common.InfraError("driver: %s" % ans["bad-op"])
+    toks = [(l.split()[0] if l.split() else "") for l in lines]
+    brs = ctx.lean.ask({"m": "c17", "op": "re", "lines": toks})["res"]
+    bad = 0
+    for l, a, b in zip(lines, ans["res"], brs):
+        py = python_re(l)
+        mo = dict(a)
+        mo["bracket_of_first_token"] = b["bracket"]
+        del mo["bracket"]
+        ctx.hist("re_lines")
+        if py["rex"]:
+            ctx.hist("re_rex_matches")
+        if mo != py:
+            bad += 1
+            if bad <= 3:
+                keys = [k for k in py if py[k] != mo.get(k)]
+                ctx.disagree("regex_translation", {"line": l}, {k: py[k] for k in keys}, {k: mo.get(k) for k in keys})
 
 
 # ---- entry points ------------------------------------------------------------------------------------------
@@ -525,9 +698,13 @@ def evaluate(ctx, cases):
                 where.append((ci, ei))
                 reqs.append(model_request(exp))
     answers = ctx.lean.ask_many(reqs)
-    models = {}
+    models, hyps = {}, {}
     for (ci, ei), a in zip(where, answers):
         models[(ci, ei)] = model_view(a)
+        hyps[(ci, ei)] = model_hyps(a)
+        st = same_text(results[ci]["exps"][ei], a)
+        if st is not None:
+            ctx.hist("text_byte_identical=%s" % st)
     for ci, (c, r) in enumerate(zip(cases, results)):
         inp = case_input(c)
         ok = r.get("build_ok") is True
@@ -538,6 +715,8 @@ def evaluate(ctx, cases):
                  sample=({"top": c["top"], "table": L.table_text(topl), "built": r.get("built"),
                           "expanded": r["exps"][0].get("out") if r["exps"] else None} if ctx.evaluations % 97 == 0 else None))
         ctx.hist("stream=%s" % c["stream"])
+        if c.get("expanded_deps"):
+            ctx.hist("has_expanded_dependency_tables")
         ctx.hist("build=%s" % r.get("build_ok"))
         if not ok:
             continue
@@ -557,6 +736,8 @@ def evaluate(ctx, cases):
             if "skip" in exp:
                 ctx.hist("%s_skipped" % kind)
                 continue
+            if exp.get("state_dependent"):
+                ctx.hist("deps_answer_state_dependent")
             if exp.get("unstable"):
                 raise common.InfraError("the environment's answers changed between the query and the call: %r" % exp["unstable"][:3])
             iv = impl_view(exp)
@@ -567,10 +748,25 @@ def evaluate(ctx, cases):
             if mv != iv:
                 ctx.disagree("expanded_text" if ei == 0 else "expanded_text_variant",
                              {"case": inp, "expansion": ei}, iv, mv, note=exp.get("errmsg", ""))
+            if "cli" in exp:
+                # the command-line glue (option parsing, -p list, top-level name from the file name) against the API call
+                cli = exp["cli"]
+                ctx.hist("cli_checked")
+                same = (cli.get("out") == exp["out"] and cli.get("rc") in (0, None)) if "out" in exp else ("err" in cli or cli.get("rc") not in (0, None))
+                if not same:
+                    ctx.disagree("cli_vs_api", {"case": inp, "expansion": ei}, {k: cli.get(k) for k in ("out", "rc", "err", "errmsg")},
+                                 {"out": exp.get("out"), "err": exp.get("err")})
         main = r["exps"][0]
-        if "out" in main:
+        if r.get("tampered"):
+            ctx.hist("tampered_between_build_and_expansion")
+        elif "out" in main:
             blk = L.exact_block(main["out"].split("\n"))
             ctx.hist("exact_block=%s" % ("none" if blk is None else "empty" if not blk else "pins"))
+            hy = hyps.get((ci, 0))
+            if hy and c["stream"] == "cf" and complete_env(c, r["built"]):
+                # the named hypotheses of C17_exact_reproduces_partial, evaluated by the model on the real answers
+                for k in ("depsSound", "covered", "noExactLine"):
+                    ctx.hist("hyp_%s=%s" % (k, hy[k]))
             if c["stream"] == "cf" and not complete_env(c, r["built"]):
                 ctx.hist("cf_incomplete_build_env")
             elif c["stream"] == "cf":
@@ -584,17 +780,143 @@ def evaluate(ctx, cases):
             ctx.fail(clause, {"case": inp, "expansion": ei}, impl_view(exp), models.get((ci, ei)), note=detail, finding=cls)
 
 
+EXH_FORMS = ["setupRequired(b)", "setupOptional(x)", "setupRequired(c >= 1)", "setupOptional(d -j 1 [>= 1])", "envSet(A, 1)  # c", "",
+             "# c", "if (flavor == Linux) {", "}", "} else {", "setupRequired(b --external)", "if (type == exact) {",
+             "setupRequired(eups)", "setupRequired(q)"]
+
+
+def exhaustive_cases(maxlen, chunk=150):
+    """Every table of 1..maxlen lines over EXH_FORMS, expanded in one fixed build environment
+    (a 1 -> b 1 -> c 2, d 1 set up with -j, x absent, q required but not set up)."""
+    import itertools
+    P = {"k": "cmd", "text": "envPrepend(PATH, ${PRODUCT_DIR}/bin)"}
+
+    def S(name, optional=False, spec=None, flags=()):
+        return {"k": "setup", "optional": optional, "name": name, "spec": spec, "flags": list(flags), "deco": {}}
+    decl = [["a", "1", [P, S("b"), S("d", True, None, ["-j"]), S("x", True)]], ["b", "1", [P, S("c", False, {"e": ">= 1"})]],
+            ["c", "2", [P]], ["d", "1", [P, S("c")]]]
+    opts = {"pins": {}, "force": False, "expandVersions": True, "addExactBlock": True, "toplevel": "a", "recurse": True}
+    texts = []
+    for k in range(1, maxlen + 1):
+        for combo in itertools.product(EXH_FORMS, repeat=k):
+            texts.append("\n".join(combo) + "\n")
+    cases = []
+    for i in range(0, len(texts), chunk):
+        cases.append({"names": ["a", "b", "c", "d"], "decl": decl, "tags": {"a": "1", "b": "1", "c": "2", "d": "1"},
+                      "build": {"a": "1", "b": "1", "c": "2", "d": "1"}, "top": ["a", "1"], "stream": "cf", "inexact_build": False,
+                      "final_newline": True, "evolve": [], "expanded_deps": [], "opts": opts, "_exhaustive": True,
+                      "variants": [{"text": t, "opts": opts} for t in texts[i:i + chunk]]})
+    return cases
+
+
+# ---- shrinking ------------------------------------------------------------------------------------------------
+
+def eval_one(ctx, case):
+    """-> (result, [(clause, class, detail, expansion)], {expansion: (impl_view, model_view)})"""
+    (r,) = run_chunk([case])
+    views = {}
+    if r.get("build_ok") is not True:
+        return r, [], views
+    for ei, exp in enumerate(r["exps"]):
+        if "answers" in exp and "skip" not in exp and "child" not in exp:
+            views[ei] = (impl_view(exp), model_view(ctx.lean.ask(model_request(exp))))
+    return r, list(oracle_case(case, r)), views
+
+
+def shrink_case(ctx, case, clause, ei, budget=60):
+    """Delta-debug the generator-level description while some expansion still fails `clause`."""
+    tests = [0]
+
+    def still(c):
+        if tests[0] >= budget:
+            return False
+        tests[0] += 1
+        try:
+            _, fails, _ = eval_one(ctx, c)
+        except Exception:  # noqa
+            return False
+        return any(f[0] == clause for f in fails)
+
+    cur = json.loads(json.dumps(case_input(case)))
+    # 1. only the failing expansion
+    cand = dict(cur)
+    cand["variants"] = [cur["variants"][ei - 1]] if ei > 0 else []
+    if cand["variants"] != cur["variants"] and still(cand):
+        cur = cand
+    # 2. no syntactic decoration, no expanded dependency tables, no CLI run
+    cand = json.loads(json.dumps(cur))
+    for _, _, lines in cand["decl"]:
+        for l in lines:
+            if l["k"] == "setup":
+                l["deco"] = {}
+    cand["expanded_deps"], cand["cli_check"] = [], False
+    if still(cand):
+        cur = cand
+    # 3. shorter history, fewer products, fewer lines in the top table
+    for field in ("evolve", "decl"):
+        keep = [e for e in cur[field] if field == "decl" and e[:2] == cur["top"]]
+        rest = [e for e in cur[field] if e not in keep]
+        if not rest:
+            continue
+        if still(dict(cur, **{field: keep})):
+            cur = dict(cur, **{field: keep})
+        else:
+            small = common.ddmin(rest, lambda sub: still(dict(cur, **{field: keep + sub})), max_tests=15)
+            cur = dict(cur, **{field: keep + small})
+    top = [e for e in cur["decl"] if e[:2] == cur["top"]][0]
+    others = [e for e in cur["decl"] if e[:2] != cur["top"]]
+
+    def with_top(lines):
+        return dict(cur, decl=[[top[0], top[1], lines]] + others)
+    if len(top[2]) > 1:
+        small = common.ddmin(top[2], lambda sub: still(with_top(sub)), max_tests=20)
+        cur = with_top(small)
+    return cur
+
+
+def shrink_failures(ctx, limit=3):
+    done = set()
+    for fl in ctx.failures:
+        if fl["clause"] in done or len(done) >= limit or ctx.time_left() < 20:
+            continue
+        if not isinstance(fl["input"], dict) or "case" not in fl["input"]:
+            continue
+        done.add(fl["clause"])
+        ei = fl["input"].get("expansion", 0)
+        try:
+            small = shrink_case(ctx, fl["input"]["case"], fl["clause"], ei)
+            r, fails, views = eval_one(ctx, small)
+        except Exception as e:  # noqa
+            ctx.note("shrinking failed: %r" % e)
+            continue
+        same = [f for f in fails if f[0] == fl["clause"]]
+        if not same:
+            continue
+        cl, cls, detail, nei = same[0]
+        iv, mv = views.get(nei, (None, None))
+        fl.update(input={"case": small, "expansion": nei}, impl_output=iv, model_output=mv, note=detail + " [shrunk from %s]" % common.digest(fl["input"]),
+                  finding_class=cls)
+
+
 def run(ctx):
     cases = corpus_cases()
     ctx.hist("corpus", len(cases))
+    evaluate_regexes(ctx, ctx.n(20000, 300000))
     evaluate(ctx, cases)
-    n = ctx.n(700, 12000)
+    ex = exhaustive_cases(ctx.n(2, 3))
+    ctx.hist("exhaustive_small_tables", sum(len(c["variants"]) for c in ex))
+    evaluate(ctx, ex)
+    n = ctx.n(1200, 30000)
     batch = 120
     done = 0
-    while done < n and not ctx.out_of_time():
+    import time
+    soft = None if (ctx.tier == "thorough" or ctx.escalated) else ctx.t0 + 120      # keep the quick tier near two minutes on a busy machine
+    while done < n and not ctx.out_of_time() and not (soft and time.time() > soft and done >= 360):
         k = min(batch, n - done)
         evaluate(ctx, [L.gen_case(ctx.rng) for _ in range(k)])
         done += k
+    if ctx.failures:
+        shrink_failures(ctx)
     h = ctx.histogram
     if ctx.evaluations >= 100:
         if h.get("build=True", 0) < 0.5 * ctx.evaluations:
